@@ -192,13 +192,15 @@ package haproxy
 //@   assumes keyed: d.config != nil && backendsKeyed(d.config.backends)
 //@   ensures aligned: forall id string :: in(id, d.config.backends.items) && d.config.backends.items[id].Dynamic.DynUpdate ==>
 //@       len(d.config.backends.items[id].Endpoints) % max(d.config.backends.items[id].Dynamic.BlockSize, 1) == 0
+//@   ensures minfree: forall id string :: in(id, d.config.backends.items) && d.config.backends.items[id].Dynamic.DynUpdate ==>
+//@       len(d.config.backends.items[id].Endpoints) >= d.config.backends.items[id].Dynamic.MinFreeSlots
 //@   loop 1 invariant keyed: backends == old(d.config.backends) && d.config == old(d.config) && d.config.backends == old(d.config.backends) && backendsKeyed(backends) && backends.items == old(d.config.backends.items)
 //@   loop 1 invariant dom:   forall id string :: in(id, backends.items) == old(in(id, d.config.backends.items)) && backends.items[id] == old(d.config.backends.items[id])
 //@   loop 1 invariant done:  forall id string :: $seen(1, id) && in(id, backends.items) && backends.items[id].Dynamic.DynUpdate ==>
-//@       len(backends.items[id].Endpoints) % max(backends.items[id].Dynamic.BlockSize, 1) == 0
-//@   loop 2 invariant count: true
-//@   loop 3 invariant grow:  blockSize == max(back.Dynamic.BlockSize, 1) && back.Dynamic.DynUpdate
-//@   loop 4 invariant fill:  blockSize == max(back.Dynamic.BlockSize, 1) && back.Dynamic.DynUpdate && 0 <= i && i <= newFreeSlots && (len(back.Endpoints) + newFreeSlots - i) % blockSize == 0
+//@       len(backends.items[id].Endpoints) % max(backends.items[id].Dynamic.BlockSize, 1) == 0 && len(backends.items[id].Endpoints) >= backends.items[id].Dynamic.MinFreeSlots
+//@   loop 2 invariant count: 0 <= totalFreeSlots && totalFreeSlots <= $idx(2) && $idx(2) <= len(back.Endpoints)
+//@   loop 3 invariant grow:  blockSize == max(back.Dynamic.BlockSize, 1) && back.Dynamic.DynUpdate && minFreeSlots == back.Dynamic.MinFreeSlots && len(back.Endpoints) >= i
+//@   loop 4 invariant fill:  blockSize == max(back.Dynamic.BlockSize, 1) && back.Dynamic.DynUpdate && 0 <= i && i <= newFreeSlots && (len(back.Endpoints) + newFreeSlots - i) % blockSize == 0 && minFreeSlots == back.Dynamic.MinFreeSlots && len(back.Endpoints) >= minFreeSlots
 //@ end
 
 // ---------------------------------------------------------------------------
